@@ -184,6 +184,7 @@ def run(prog: Program, col: Collector, tier: str, refs: Optional[Refs] = None, c
     _siblings(prog, col, refs, cat)
     from . import numerics
     numerics.run(prog, col, refs, cat)
+    numerics.run_agreement(prog, col, refs, cat)
     return col
 
 
